@@ -40,6 +40,27 @@ const (
 	vBAD = int64(-2)
 )
 
+// Maxima of 2^32 and more (C07: "all maxima"): TLC integers are 32 bit, so a real maximum x >= 2^32 is logged as x - hugeOff (>= 2^30);
+// scripts keep the total weight far below 2^30, so the model's behaviour under the logged maximum is that of the real one.
+const (
+	hugeLog = int64(1) << 30
+	hugeOff = (int64(1) << 32) - hugeLog
+)
+
+func realMax(logged int64) int64 {
+	if logged >= hugeLog {
+		return logged + hugeOff
+	}
+	return logged
+}
+
+func loggedMax(real int64) int64 {
+	if real >= hugeLog+hugeOff {
+		return real - hugeOff
+	}
+	return real
+}
+
 // ---------------------------------------------------------------- config / script
 
 type seqCfg struct {
@@ -357,7 +378,7 @@ func newSeqRun(cfg seqCfg) *seqRun {
 	if cfg.Stats == 1 {
 		r.ctr = stats.NewCounter()
 	}
-	r.c = Must(r.options(cfg.Max, r.clk, r.ctr, &r.ev))
+	r.c = Must(r.options(realMax(cfg.Max), r.clk, r.ctr, &r.ev))
 	return r
 }
 
@@ -693,13 +714,13 @@ func (r *seqRun) step(i int, op seqOp) (rec trRec) {
 				}
 				rec.Op.M = op.M
 			}
-			c.SetMaximum(uint64(op.M))
+			c.SetMaximum(uint64(realMax(op.M)))
 		case "GetMaximum":
 			m := c.GetMaximum()
 			if m == math.MaxUint64 {
 				rec.Num = vINF
 			} else {
-				rec.Num = int64(m)
+				rec.Num = loggedMax(int64(m))
 			}
 		case "WeightedSize":
 			rec.Num = int64(c.WeightedSize())
@@ -776,12 +797,12 @@ func (r *seqRun) saveLoad(op *seqOp, rec *trRec) {
 		rec.Err = "other"
 		return
 	}
-	max2 := r.cfg.Max
+	max2 := realMax(r.cfg.Max)
 	if r.cfg.Size != "none" {
 		max2 = int64(r.c.GetMaximum())
 	}
 	if op.Max2 > 0 {
-		max2 = op.Max2
+		max2 = realMax(op.Max2)
 	}
 	clk2 := newManualClock(r.clk.NowNano() + op.Dt*r.cfg.Scale)
 	t := Must(r.options(max(max2, 1), clk2, nil, nil))
@@ -804,7 +825,7 @@ func (r *seqRun) saveLoad(op *seqOp, rec *trRec) {
 		rec.TgtEst++
 	}
 	rec.TgtNow = r.toUnits(clk2.NowNano())
-	rec.TgtMax = max2
+	rec.TgtMax = loggedMax(max2)
 }
 
 func runSeqScript(sc seqScript, w *bufio.Writer) {
